@@ -588,7 +588,7 @@ func burst() {
 	writers := []probe.ProbeProxy{w.MustConnect().Probe(1), w.MustConnect().Probe(1), w.MustConnect().Probe(1)}
 	vrt.Quiesce()
 	vrt.Explore()
-	const per = 10
+	const per = 16 // 48 events wait unread: more than a small queue holds, fewer than the 100 of the client's subscription queue
 	var ws []*vrt.Thread
 	for i, p := range writers {
 		i, p := i, p
